@@ -680,6 +680,27 @@ Definition norm_net (k : akind) (n : net) : net :=
   end.
 Definition from_raw (n : net) (k : akind) (d : bytes) : addr := ARaw (norm_net k n) k d.
 
+(** [ZcashAddress::convert_if_network(expected)]: the (network, kind, data) handed to the
+    [TryFromAddress] converter, or [ConversionError::IncorrectNetwork { expected, actual }].
+    Only Sprout / P2PKH / P2SH (whose Base58 prefixes testnet and regtest share) are accepted when a
+    testnet address is converted for regtest. *)
+Definition net_eq (a b : net) : bool :=
+  match a, b with Main, Main | Test, Test | Regtest, Regtest => true | _, _ => false end.
+Definition addr_net (a : addr) : net := match a with ARaw n _ _ => n | AUni n _ => n end.
+Definition convert_if_network (a : addr) (expected : net) : outcome addr (net * net) :=
+  let actual := addr_net a in
+  let network_matches := net_eq actual expected in
+  let regtest_exception := network_matches || (net_eq actual Test && net_eq expected Regtest) in
+  let bad := Err (expected, actual) in
+  match a with
+  | ARaw _ Sprout d => if regtest_exception then Ok (ARaw expected Sprout d) else bad
+  | ARaw _ Sapling d => if network_matches then Ok (ARaw expected Sapling d) else bad
+  | AUni _ items => if network_matches then Ok (AUni expected items) else bad
+  | ARaw _ P2pkh d => if regtest_exception then Ok (ARaw expected P2pkh d) else bad
+  | ARaw _ P2sh d => if regtest_exception then Ok (ARaw expected P2sh d) else bad
+  | ARaw _ Tex d => if network_matches then Ok (ARaw expected Tex d) else bad
+  end.
+
 (* ------------------------------------------------------------------------------------------ *)
 (** * Hash tables supplied with a case: an entry is (tag, i, length, input, output).
       tag 0: output = H i length input.  tag 1 (length field unused, 0): output = the
